@@ -18,6 +18,7 @@ from ..drivers import Harness
 from ..e2 import Choices, explore
 from ..timeline import EPS, run_async, run_sync
 
+UNIT_TIMEOUT = 900  # backstop against a hung unit only; thread-slice subtrees can take minutes on a loaded machine
 LEVEL = "exploration"
 RULE = (
     "TIME machine variants (one delay, two delays, targetless delay + second delay, named computed delay, compound timed state re-entered through a descendant target, guarded "
@@ -219,8 +220,14 @@ PREEMPT = {"leave": (1, 2), "leave-back": (1, 1), "self-reenter": (1, 1), "leave
 def units(tier: str) -> List[Any]:
     maxlen = 2 if tier == "quick" else 3
     us = []
+    from . import c08_preempt as PP
+    from ..preempt import split
+
+    core.install_logging()
     for variant, (bq, bt) in PREEMPT.items():
-        us.append(("preempt", variant, bq if tier == "quick" else bt))
+        b = bq if tier == "quick" else bt
+        for root in split(PP, variant, b):
+            us.append(("preempt", variant, (b, root)))
     for variant in VARIANTS:
         for engine in ENGINES:
             sc = scripts(maxlen, engine, variant)
@@ -283,7 +290,7 @@ def run_unit(unit):
         from . import c08_preempt as P
         from ..preempt import unit_result
 
-        return unit_result("C08", P, unit[1], unit[2], lambda v: f"caller ops {P.VARIANTS[v]} against the after-timer threads of state 'a'")
+        return unit_result("C08", P, unit[1], unit[2][0], lambda v: f"caller ops {P.VARIANTS[v]} against the after-timer threads of state 'a'", root=unit[2][1])
     variant, engine, batch = unit
     res = dict(states=0, transitions=0, executions=0, evaluations=0, distinct=[], violations=[], samples=[], caps=[])
     for script in batch:
